@@ -15,8 +15,8 @@ META = {
              "Shape, Transpose, Gemm, all reductions (Reduce*, ArgMax/ArgMin; code with fix F72), the broadcasting rule BinaryOp and "
              "MatMul (under the hypothesis excluding the known finding F70), and Add/Sub/Mul/Div/Equal on shape-carrying scalars and "
              "vectors incl. the one-element broadcasting of symbolic_binary_op (Equal for C11's fixed SymExpr::range; refuted for the "
-             "old one). `_refuted` witnesses for every finding (F5 Equal, F70, F71 Where, F72 reductions, F77 Squeeze). NOT proved, "
-             "only modelled and tied: Where, Gather, Concat, Squeeze, Unsqueeze, ConstantOfShape, Range, Size. On every run: "
+             "old one), and Gather (vector elements by constant indices + shape rule). `_refuted` witnesses for every finding (F5 Equal, F70, F71 Where, F72 reductions, F77 Squeeze). NOT proved, "
+             "only modelled and tied: Where, Concat, Squeeze, Unsqueeze, ConstantOfShape, Range, Size. On every run: "
              "(a) model vs the real inference rules and reference semantics vs the real operators on generated cases; (b) for ALL "
              "operators offering inference (deserialised by the real ONNX registry): infer, instantiate under 8 assignments (0, 1, "
              "negatives), execute, and check every claim with the Coq evaluator -- the only coverage (a test) for operators without a "
@@ -58,6 +58,7 @@ THEOREMS = ["C10_infer_sound_Unary",
             "C10_infer_sound_Mul",
             "C10_infer_sound_Div",
             "C10_infer_sound_Equal",
+            "C10_infer_sound_Gather",
             "C10_F5_equal_fold_refuted",
             "C10_F5_Equal_refuted",
             "C10_F71_Where_refuted",
